@@ -267,6 +267,7 @@ func checkC08(a *checkArgs, r *Result) error {
 			defer wg.Done()
 			defer func() { <-sem }()
 			runW2Case(r, dp, cs)
+			runW2Model(r, dp, cs)
 		}(cs)
 	}
 	wg.Wait()
